@@ -203,7 +203,46 @@ func (s *State) name(prefix string, sort string, t Term) Term {
 	}
 	n := s.C.fresh(prefix)
 	s.Path = s.Path.push(fmt.Sprintf("(define-fun %s () %s %s)", n, sort, t))
+	s.C.defs[n] = t
 	return n
+}
+
+// selectSimp builds (select arr idx), resolving reads over syntactically matching writes (and skipping writes
+// to other freshly allocated references).
+func (s *State) selectSimp(arr, idx Term) Term {
+	cur := arr
+	for depth := 0; depth < 64; depth++ {
+		def := cur
+		if d, ok := s.C.defs[cur]; ok {
+			def = d
+		}
+		if !strings.HasPrefix(def, "(store ") {
+			break
+		}
+		parts := parseSx(def)
+		if len(parts) != 1 || len(parts[0].list) != 4 {
+			break
+		}
+		a, i, v := parts[0].list[1].String(), parts[0].list[2].String(), parts[0].list[3].String()
+		if i == idx {
+			return v
+		}
+		if isFreshRef(i) && isFreshRef(idx) {
+			cur = a
+			continue
+		}
+		break
+	}
+	return fmt.Sprintf("(select %s %s)", cur, idx)
+}
+
+func isFreshRef(t Term) bool {
+	for _, p := range []string{"new_", "alloc_", "mk!", "map!", "ap_base!", "bytes!", "chan!"} {
+		if strings.HasPrefix(t, p) {
+			return true
+		}
+	}
+	return false
 }
 
 func (s *State) freshConst(prefix, sort string) Term {
@@ -400,11 +439,11 @@ func (s *State) loadIn(h Heap, cells map[*Cell]Term, l *Loc) (Term, types.Type) 
 			return fmt.Sprintf("(mk.%s %s)", name, strings.Join(fs, " ")), l.Ty
 		}
 		cn, cs, ft := c.fieldComp(l.Ty, l.Path[0].Field)
-		base := fmt.Sprintf("(select %s %s)", compIn(c, h, cn, cs), l.Ref)
+		base := s.selectSimp(compIn(c, h, cn, cs), l.Ref)
 		return s.selPath(base, ft, l.Path[1:]), c.pathType(ft, l.Path[1:])
 	case LocBox:
 		cn, cs := c.boxComp(l.Ty)
-		base := fmt.Sprintf("(select %s %s)", compIn(c, h, cn, cs), l.Ref)
+		base := s.selectSimp(compIn(c, h, cn, cs), l.Ref)
 		return s.selPath(base, l.Ty, l.Path), c.pathType(l.Ty, l.Path)
 	case LocElem:
 		cn, cs := c.elemComp(l.Ty)
